@@ -181,10 +181,12 @@ func (t *Transport) Ping(addr string) error {
 
 func checkPersistConnErr(err error, pc *persistConn) {
 	if err == ErrShutdown {
+		// Close before the connection can be seen as dead: getConn dials the
+		// replacement as soon as it finds alive == false.
 		pc.mu.Lock()
 		pc.alive = false
-		pc.mu.Unlock()
 		pc.Close()
+		pc.mu.Unlock()
 	}
 }
 
